@@ -417,8 +417,62 @@ func (cx *Ctx) c07Report(c spec.Call, r0, rj spec.Resolution) {
 // ---------------------------------------------------------------------------------------------
 // (b) history independence
 
+// sameAsResolved returns call i of a history as a self-contained call with freshly built arguments: the call it reuses
+// the argument values of, with the caller's in-place edits applied.
+func sameAsResolved(calls []spec.Call, i int) spec.Call {
+	c := calls[i]
+	if c.SameAs == nil {
+		return c
+	}
+	b := calls[*c.SameAs]
+	b.SameAs = nil
+	if len(c.EditSizes) > 0 && b.Opts.Sizes != nil {
+		var out []spec.NodeSize
+		done := map[string]bool{}
+		for _, s := range b.Opts.Sizes {
+			keep := true
+			for _, e := range c.EditSizes {
+				if e.ID == s.ID {
+					done[e.ID] = true
+					if e.W < 0 {
+						keep = false
+					} else {
+						s.W, s.H = e.W, e.H
+					}
+				}
+			}
+			if keep {
+				out = append(out, s)
+			}
+		}
+		for _, e := range c.EditSizes {
+			if !done[e.ID] && e.W >= 0 {
+				out = append(out, e)
+				done[e.ID] = true
+			}
+		}
+		if out == nil {
+			out = []spec.NodeSize{}
+		}
+		b.Opts.Sizes = out
+	}
+	if len(c.EditEdges) == len(b.Edges) && len(c.EditEdges) > 0 {
+		b.Edges = c.EditEdges
+	}
+	return b
+}
+
+func deepCopyEdges(e [][]string) [][]string {
+	out := make([][]string, len(e))
+	for i := range e {
+		out[i] = append([]string(nil), e[i]...)
+	}
+	return out
+}
+
 func (cx *Ctx) c07Histories(r *rng, n int, gc genCfg) map[string]any {
 	var jobs []*spec.Job
+	nEdited := 0
 	for i := 0; i < n; i++ {
 		ncalls := r.between(3, 8)
 		var calls []spec.Call
@@ -433,6 +487,32 @@ func (cx *Ctx) c07Histories(r *rng, n int, gc genCfg) map[string]any {
 			case p2:
 				c := under
 				c.SameAs = iptr(p1)
+				if len(under.Opts.Sizes) > 0 && r.chance(40) {
+					// the caller edits its size map between the two calls (a label got longer, a node lost its size): the
+					// reused Option value must read the map as it is NOW
+					for k := r.between(1, 2); k > 0; k-- {
+						e := under.Opts.Sizes[r.intn(len(under.Opts.Sizes))]
+						switch r.intn(5) {
+						case 0:
+							e.W = -1
+						case 1:
+							e.W, e.H = 0, 0
+						default:
+							e.W, e.H = float64(r.between(1, 30)*10), float64(r.between(1, 12)*10)
+						}
+						c.EditSizes = append(c.EditSizes, e)
+					}
+					nEdited++
+				} else if len(under.Edges) >= 2 && r.chance(15) {
+					// ... or rewires its edge list in place (same backing arrays, other strings)
+					ee := deepCopyEdges(under.Edges)
+					i, j := r.intn(len(ee)), r.intn(len(ee))
+					if i != j && len(ee[i]) == 2 && len(ee[j]) == 2 && ee[i][1] != ee[j][1] {
+						ee[i][1], ee[j][1] = ee[j][1], ee[i][1]
+						c.EditEdges = ee
+						nEdited++
+					}
+				}
 				calls = append(calls, c)
 			default:
 				e2, _ := genGraph(r, gc)
@@ -463,11 +543,7 @@ func (cx *Ctx) c07Histories(r *rng, n int, gc genCfg) map[string]any {
 			continue
 		}
 		for ci := range jr.Job.Calls {
-			c := jr.Job.Calls[ci]
-			if c.SameAs != nil {
-				c = jr.Job.Calls[*c.SameAs]
-				c.SameAs = nil
-			}
+			c := sameAsResolved(jr.Job.Calls, ci)
 			if c.Opts.P1 == "greedy-random" || c.NoRef {
 				continue
 			}
@@ -513,7 +589,8 @@ func (cx *Ctx) c07Histories(r *rng, n int, gc genCfg) map[string]any {
 			cx.report(key, what, rf)
 		}
 	}
-	return map[string]any{"histories": n, "calls": calls, "fresh_process_references_compared": compared, "history_jobs_that_died": died}
+	return map[string]any{"histories": n, "calls": calls, "fresh_process_references_compared": compared, "history_jobs_that_died": died,
+		"histories_in_which_the_caller_edits_its_size_map_or_edge_list_between_two_calls_that_reuse_the_same_argument_values": nEdited}
 }
 
 func (cx *Ctx) historyViolates(calls []spec.Call) (bool, *ReplayFile, string, string) {
@@ -530,11 +607,7 @@ func (cx *Ctx) historyViolatesRes(calls []spec.Call, res []spec.Resolution) (boo
 	job := spec.Job{ID: 0, Kind: "history", Calls: calls, Res: hres, Budgets: cx.Budgets, WantFull: true}
 	rj := []ReplayJob{{Pool: "simfresh", Job: job}}
 	for i := range calls {
-		c := calls[i]
-		if c.SameAs != nil {
-			c = calls[*c.SameAs]
-			c.SameAs = nil
-		}
+		c := sameAsResolved(calls, i)
 		r := spec.Resolution{Adv: "identity"}
 		if len(res) == len(calls) {
 			r = res[i]
@@ -573,9 +646,7 @@ func (cx *Ctx) c07ShrinkHistory(job *spec.Job) {
 	// resolve SameAs into explicit copies so that calls can be dropped independently
 	for i := range calls {
 		if calls[i].SameAs != nil {
-			c := calls[*calls[i].SameAs]
-			c.SameAs = nil
-			calls[i] = c
+			calls[i] = sameAsResolved(job.Calls, i)
 		}
 	}
 	v, rf, key, what := cx.historyViolates(calls)
